@@ -15,7 +15,8 @@ FAULT_KINDS = ['nan', 'pinf', 'ninf', 'zero', 'huge', 'big', 'tiny',
                'subnormal']
 # faults that take the leaf outside {0} u [1e-12, 1e12] or make it non-finite
 POISONING = {'nan', 'pinf', 'ninf', 'huge', 'tiny', 'subnormal'}
-GRAD_KINDS = ['normal', 'lowrank', 'sparse', 'index', 'zero', 'onehot_leaf']
+GRAD_KINDS = ['normal', 'lowrank', 'sparse', 'index', 'zero', 'onehot_leaf',
+              'rows']
 
 
 def _base(rng, shape, kind, op):
@@ -37,6 +38,11 @@ def _base(rng, shape, kind, op):
   if kind == 'sparse':
     mask = rng.random(shape) < 0.35
     g = g * mask
+  if kind == 'rows' and len(shape) >= 1 and shape[0] > 1:
+    # embedding-table-like: only some rows of the first axis receive a gradient
+    keep = rng.random(shape[0]) < 0.4
+    keep[int(rng.integers(0, shape[0]))] = True
+    g = g * keep.reshape((shape[0],) + (1,) * (len(shape) - 1))
   return g
 
 
